@@ -6,46 +6,130 @@ From LLGoV Require Import C20.Model C20.Proofs.
 Local Open Scope N_scope.
 Local Open Scope list_scope.
 
-(* The destination check of extractTarGz, for EVERY entry name (.. at any depth,
-   absolute, empty, repeated separators): if the check passes, the cleaned target
-   is the cleaned destination followed by at least one more element, and all of
-   these are plain names (not empty, not ., not .., no separator) - so the OS
-   reaches the target by stepping down from the destination only. *)
+(* fixed = true: the code as it is now (securePath used by both extractors,
+   MkdirAll of the parent in extractZip, O_TRUNC in extractTarGz);
+   fixed = false: before these fixes, kept for the refutations at the end. *)
+
+(* securePath, for EVERY entry name (.. at any depth, absolute, empty, repeated
+   separators): if the check passes, the cleaned target is the cleaned destination
+   followed by zero or more elements, all of them plain names (not empty, not .,
+   not .., no separator) - the OS reaches the target by stepping down from the
+   destination only. *)
 Theorem guard_implies_confined : forall dest name,
+  rooted dest = true -> guard_fixed dest name = true ->
+  exists rest, Forall plain rest /\ comps (secure_target dest name) = comps dest ++ rest.
+Proof. exact guard_fixed_confined. Qed.
+Print Assumptions guard_implies_confined.
+
+(* the check is not vacuous: every relative name made of plain elements (with or
+   without the trailing slash of zip directory entries) passes and lands where expected *)
+Theorem plain_names_accepted : forall dest r sfx,
+  rooted dest = true -> comps dest <> [] -> Forall plain r -> r <> [] -> (sfx = [] \/ sfx = [SLASH]) ->
+  guard_fixed dest (join r ++ sfx) = true /\ comps (secure_target dest (join r ++ sfx)) = comps dest ++ r.
+Proof. exact plain_accepted_fixed. Qed.
+Print Assumptions plain_names_accepted.
+
+(* names made of empty and . elements only - the root entry ./ that tar -c . writes
+   first - name the destination itself and are accepted *)
+Theorem root_entry_accepted : forall dest name,
+  rooted dest = true -> Forall (fun s => is_nil s || is_dot s = true) (split name) ->
+  guard_fixed dest name = true /\ comps (secure_target dest name) = comps dest.
+Proof. exact dot_names_accepted. Qed.
+Print Assumptions root_entry_accepted.
+
+(* Both extractors: whatever the entries are and whether or not the call fails
+   half-way, nothing outside the (existing) destination is created or changed:
+   every path that is not strictly below dest has the same node before and after. *)
+Theorem targz_all_writes_confined : forall dest es fs fs' ok,
+  rooted dest = true -> dest_exists fs (comps dest) ->
+  extract_targz true dest es fs = (fs', ok) ->
+  forall q, ~ sunder (comps dest) q -> lookup fs' q = lookup fs q.
+Proof. intros dest es fs fs' ok Hr HE H. exact (targz_frame true dest Hr es fs fs' ok HE H). Qed.
+Print Assumptions targz_all_writes_confined.
+
+Theorem zip_all_writes_confined : forall dest es fs fs' ok,
+  rooted dest = true -> dest_exists fs (comps dest) ->
+  extract_zip true dest es fs = (fs', ok) ->
+  forall q, ~ sunder (comps dest) q -> lookup fs' q = lookup fs q.
+Proof. intros dest es fs fs' ok Hr HE H. exact (zip_frame dest Hr es fs fs' ok HE H). Qed.
+Print Assumptions zip_all_writes_confined.
+
+(* Well-formed archives (relative names of plain elements, files and
+   directories only, no file path is a prefix of another entry's path; parents
+   may be implicit) unpacked into an existing empty destination: the call
+   succeeds, every entry is there with exactly its bytes, and nothing else was
+   created except the directories leading to the entries.  Both formats. *)
+Theorem targz_wellformed_contents_exact : forall dest ws fs,
+  rooted dest = true -> comps dest <> [] ->
+  dest_exists fs (comps dest) -> (forall q, sunder (comps dest) q -> lookup fs q = None) ->
+  wf_entries ws ->
+  exists fs', extract_targz true dest (map to_entry ws) fs = (fs', true) /\
+    (forall w, In w ws -> lookup fs' (comps dest ++ w_rel w) = expected w) /\
+    (forall q, lookup fs' q = lookup fs q \/
+               (lookup fs q = None /\ q <> [] /\ exists w, In w ws /\ pref q (comps dest ++ w_rel w))).
+Proof.
+  intros dest ws fs Hr HD HE Hempty Hwf. rewrite (targz_place_all dest Hr HD ws fs Hwf).
+  apply (place_all_wellformed _ HD ws fs Hwf).
+  apply empty_dest_inv; [exact HE | exact Hempty | exact (wf_rel_nonempty ws Hwf)].
+Qed.
+Print Assumptions targz_wellformed_contents_exact.
+
+Theorem zip_wellformed_contents_exact : forall dest ws fs,
+  rooted dest = true -> comps dest <> [] ->
+  dest_exists fs (comps dest) -> (forall q, sunder (comps dest) q -> lookup fs q = None) ->
+  wf_entries ws ->
+  exists fs', extract_zip true dest (map to_zentry ws) fs = (fs', true) /\
+    (forall w, In w ws -> lookup fs' (comps dest ++ w_rel w) = expected w) /\
+    (forall q, lookup fs' q = lookup fs q \/
+               (lookup fs q = None /\ q <> [] /\ exists w, In w ws /\ pref q (comps dest ++ w_rel w))).
+Proof.
+  intros dest ws fs Hr HD HE Hempty Hwf. rewrite (zip_place_all dest Hr HD ws fs Hwf).
+  apply (place_all_wellformed _ HD ws fs Hwf).
+  apply empty_dest_inv; [exact HE | exact Hempty | exact (wf_rel_nonempty ws Hwf)].
+Qed.
+Print Assumptions zip_wellformed_contents_exact.
+
+(* a file that is written again (repeated member, or a file that was there
+   before) holds exactly the new bytes afterwards: the open truncates *)
+Theorem rewritten_file_holds_new_bytes : forall fs p data fs',
+  write_file true fs p data = Some fs' -> lookup fs' p = Some (File data).
+Proof. exact write_trunc_exact. Qed.
+Print Assumptions rewritten_file_holds_new_bytes.
+
+Definition ex_dest : str := bs "/s/l3/dest".
+Definition ex_fs : fsys := dirs_to (comps ex_dest).
+
+Example fixed_witnesses :
+  (* zip: ../evil is rejected, nothing written *)
+  extract_zip true ex_dest [ZE (bs "../evil") false (bs "EVIL")] ex_fs = (ex_fs, false)
+  (* zip: parents are created *)
+  /\ (let r := extract_zip true ex_dest [ZE (bs "a/b.txt") false (bs "hello")] ex_fs in
+      snd r = true /\ lookup (fst r) (comps ex_dest ++ [bs "a"; bs "b.txt"]) = Some (File (bs "hello")))
+  (* tar: the later member replaces the earlier one completely *)
+  /\ (let r := extract_targz true ex_dest [TE (bs "f") TReg (bs "0123456789"); TE (bs "f") TReg (bs "AB")] ex_fs in
+      snd r = true /\ lookup (fst r) (comps ex_dest ++ [bs "f"]) = Some (File (bs "AB")))
+  (* tar: the ./ root entry is accepted *)
+  /\ (let r := extract_targz true ex_dest [TE (bs "./") TDir []; TE (bs "./g") TReg (bs "x")] ex_fs in
+      snd r = true /\ lookup (fst r) (comps ex_dest ++ [bs "g"]) = Some (File (bs "x"))).
+Proof. vm_compute. repeat split; reflexivity. Qed.
+
+(* ---------- before the fixes (finding F14, repaired) ---------- *)
+
+(* the old prefix test of extractTarGz was sound as well *)
+Theorem unfixed_guard_implies_confined : forall dest name,
   rooted dest = true -> guard dest name = true ->
   exists rest, rest <> [] /\ Forall plain rest /\
                comps (join2 dest name) = comps dest ++ rest.
 Proof. exact guard_confined. Qed.
-Print Assumptions guard_implies_confined.
+Print Assumptions unfixed_guard_implies_confined.
 
-(* the check is not vacuous: every relative name made of plain elements passes
-   and lands where expected *)
-Theorem plain_names_accepted : forall dest r,
-  rooted dest = true -> comps dest <> [] -> Forall plain r -> r <> [] ->
-  guard dest (join r) = true /\ comps (join2 dest (join r)) = comps dest ++ r.
-Proof. exact plain_accepted. Qed.
-Print Assumptions plain_names_accepted.
-
-(* extractTarGz: whatever the entries are and whether or not it fails half-way,
-   nothing outside the (existing) destination is created or changed: every path
-   that is not strictly below dest has the same node before and after. *)
-Theorem targz_all_writes_confined : forall dest es fs fs' ok,
-  rooted dest = true -> dest_exists fs (comps dest) ->
-  extract_targz dest es fs = (fs', ok) ->
-  forall q, ~ sunder (comps dest) q -> lookup fs' q = lookup fs q.
-Proof. intros dest es fs fs' ok Hr HE H. exact (targz_frame dest Hr es fs fs' ok HE H). Qed.
-Print Assumptions targz_all_writes_confined.
-
-(* extractZip has no such check (finding F14): an entry ../evil is written next
-   to the destination and the call reports success *)
-Definition ex_dest : str := bs "/s/l3/dest".
-Definition ex_fs : fsys := dirs_to (comps ex_dest).
-
-Theorem zip_slip_refuted :
+(* extractZip had no check: an entry ../evil was written next to the
+   destination and the call reported success *)
+Theorem unfixed_zip_slip_refuted :
   exists es q, rooted ex_dest = true /\ dest_exists ex_fs (comps ex_dest) /\
-    snd (extract_zip ex_dest es ex_fs) = true /\
+    snd (extract_zip false ex_dest es ex_fs) = true /\
     ~ sunder (comps ex_dest) q /\
-    lookup (fst (extract_zip ex_dest es ex_fs)) q <> lookup ex_fs q.
+    lookup (fst (extract_zip false ex_dest es ex_fs)) q <> lookup ex_fs q.
 Proof.
   exists [ZE (bs "../evil") false (bs "EVIL")], [bs "s"; bs "l3"; bs "evil"].
   split; [reflexivity|]. split.
@@ -54,58 +138,36 @@ Proof.
   - intros [r [_ E]]. vm_compute in E. inversion E.
   - vm_compute. discriminate.
 Qed.
-Print Assumptions zip_slip_refuted.
+Print Assumptions unfixed_zip_slip_refuted.
 
-(* Well-formed archives (relative names of plain elements, files and
-   directories only, no file path is a prefix of another entry's path) unpacked
-   by extractTarGz into an existing empty destination: the call succeeds, every
-   entry is there with exactly its bytes, and nothing else was created except
-   the directories leading to the entries. *)
-Theorem targz_wellformed_contents_exact : forall dest ws fs,
-  rooted dest = true -> comps dest <> [] ->
-  dest_exists fs (comps dest) -> (forall q, sunder (comps dest) q -> lookup fs q = None) ->
-  wf_entries ws ->
-  exists fs', extract_targz dest (map to_entry ws) fs = (fs', true) /\
-    (forall w, In w ws -> lookup fs' (comps dest ++ w_rel w) = expected w) /\
-    (forall q, lookup fs' q = lookup fs q \/
-               (lookup fs q = None /\ q <> [] /\ exists w, In w ws /\ pref q (comps dest ++ w_rel w))).
-Proof.
-  intros dest ws fs Hr HD HE Hempty Hwf.
-  apply (targz_wellformed dest Hr HD ws fs Hwf).
-  apply empty_dest_inv; [exact HE | exact Hempty|].
-  clear - Hwf. induction ws as [|w ws IH]; intros w0 []; destruct Hwf as [_ [Hne [_ [_ Hwf']]]]; subst; auto.
-Qed.
-Print Assumptions targz_wellformed_contents_exact.
-
-(* The same claim fails for legal archives outside that class (finding F14):
-   a repeated member keeps the tail of the longer earlier version (no O_TRUNC) *)
-Theorem dup_entry_stale_tail_refuted :
-  let r := extract_targz ex_dest [TE (bs "f") TReg (bs "0123456789"); TE (bs "f") TReg (bs "AB")] ex_fs in
+(* a repeated member kept the tail of the longer earlier version (no O_TRUNC) *)
+Theorem unfixed_dup_entry_stale_tail_refuted :
+  let r := extract_targz false ex_dest [TE (bs "f") TReg (bs "0123456789"); TE (bs "f") TReg (bs "AB")] ex_fs in
   snd r = true /\ lookup (fst r) (comps ex_dest ++ [bs "f"]) = Some (File (bs "AB23456789")).
 Proof. vm_compute. split; reflexivity. Qed.
-Print Assumptions dup_entry_stale_tail_refuted.
+Print Assumptions unfixed_dup_entry_stale_tail_refuted.
 
-(* the root entry ./ that tar -c . writes first is rejected, nothing is unpacked *)
-Theorem dot_slash_entry_refuted :
-  extract_targz ex_dest [TE (bs "./") TDir []; TE (bs "./g") TReg (bs "x")] ex_fs = (ex_fs, false).
+(* the root entry ./ was rejected, nothing was unpacked *)
+Theorem unfixed_dot_slash_entry_refuted :
+  extract_targz false ex_dest [TE (bs "./") TDir []; TE (bs "./g") TReg (bs "x")] ex_fs = (ex_fs, false).
 Proof. vm_compute. reflexivity. Qed.
-Print Assumptions dot_slash_entry_refuted.
+Print Assumptions unfixed_dot_slash_entry_refuted.
 
-(* extractZip does not create parent directories: a/b.txt without an a/ entry fails *)
-Theorem zip_no_parent_refuted :
-  extract_zip ex_dest [ZE (bs "a/b.txt") false (bs "hello")] ex_fs = (ex_fs, false).
+(* extractZip did not create parent directories: a/b.txt without an a/ entry failed *)
+Theorem unfixed_zip_no_parent_refuted :
+  extract_zip false ex_dest [ZE (bs "a/b.txt") false (bs "hello")] ex_fs = (ex_fs, false).
 Proof. vm_compute. reflexivity. Qed.
-Print Assumptions zip_no_parent_refuted.
+Print Assumptions unfixed_zip_no_parent_refuted.
 
 (* ---------- the hypotheses are satisfiable ---------- *)
 Example ex_guard_rejects :
-  map (guard ex_dest) [bs "../evil"; bs "a/../../evil"; bs ""; bs "."; bs "./"; bs "../destx"; bs "a/.."]
-  = [false; false; false; false; false; false; false].
+  map (guard_fixed ex_dest) [bs "../evil"; bs "a/../../evil"; bs "../destx"; bs "../../dest"; bs "a/../.."]
+  = [false; false; false; false; false].
 Proof. vm_compute. reflexivity. Qed.
 
 Example ex_guard_accepts :
-  map (guard ex_dest) [bs "a"; bs "a//b/./c"; bs "/etc/passwd"; bs "../dest/in"; bs "x/../y"; bs "..."]
-  = [true; true; true; true; true; true].
+  map (guard_fixed ex_dest) [bs "a"; bs "a//b/./c"; bs "/etc/passwd"; bs "../dest/in"; bs "x/../y"; bs "..."; bs ""; bs "./"; bs "a/.."]
+  = [true; true; true; true; true; true; true; true; true].
 Proof. vm_compute. reflexivity. Qed.
 
 Definition ex_ws : list went :=
@@ -127,7 +189,7 @@ Proof.
 Qed.
 
 Example ex_wf_result :
-  let r := extract_targz ex_dest (map to_entry ex_ws) ex_fs in
+  let r := extract_zip true ex_dest (map to_zentry ex_ws) ex_fs in
   snd r = true /\ lookup (fst r) (comps ex_dest ++ [bs "a"; bs "b.txt"]) = Some (File (bs "hello"))
   /\ lookup (fst r) (comps ex_dest ++ [bs "c"; bs "d"]) = Some Dir.
 Proof. vm_compute. repeat split; reflexivity. Qed.
